@@ -225,7 +225,23 @@ func main() {
 				expectFail("verify with absent mode "+mode, runNoEnv([]byte(pr.stdout), "verify", "--keys-file", keys[mode], "--input-hash", "0x"+h.Text(16)))
 				expectFail("prove with garbage mode "+mode, run(doc, "prove", "--mode", "Insertion ", "--keys-file", keys[mode]))
 				expectFail("prove with absent mode "+mode, runNoEnv(doc, "prove", "--keys-file", keys[mode]))
-				expectFail("prove with the other mode's flag "+mode, run(doc, "prove", "--mode", other[mode], "--keys-file", keys[mode]))
+				// the other mode's flag with this mode's keys and parameters.  The property demands a
+				// non-zero exit for an unknown or missing mode and for unprovable parameters — not for this
+				// combination: at batch size 1 the two circuits have the same witness shape, a deletion
+				// document read as insertion parameters has start index 0, and when the deletion index is
+				// 0 as well the witness IS the genuine one and a valid proof comes out.  What must hold is
+				// that the exit status tells the truth: a non-zero exit, or one proof on stdout that
+				// verifies under these keys (in their own mode) for this input hash.
+				if xr := run(doc, "prove", "--mode", other[mode], "--keys-file", keys[mode]); xr.code == 0 && !strings.Contains(xr.stderr, "panic:") {
+					vr := run([]byte(xr.stdout), "verify", "--mode", mode, "--keys-file", keys[mode], "--input-hash", "0x"+h.Text(16))
+					if vr.code == 0 {
+						emit("cli\tprove with the other mode's flag "+mode, "ok")
+					} else {
+						emit("cli\tprove with the other mode's flag "+mode, "exit status 0 but what it printed does not verify under these keys: "+tail(vr.stderr))
+					}
+				} else {
+					expectFail("prove with the other mode's flag "+mode, xr)
+				}
 			}
 		}
 		expectFail("gen-test-params garbage mode", run(nil, "gen-test-params", "--mode", "x", "--tree-depth", "2", "--batch-size", "1"))
